@@ -1138,6 +1138,133 @@ fn event_reflection() -> Option<String> {
     None
 }
 
+/// C03: a first step that reaches xend and is then rejected must not end the run at the next accepted step: Success only at xend
+fn first_step_rejected_then_success() -> Option<String> {
+    struct Forced; impl IVP for Forced { fn ode(&self, t: f64, y: &[f64], d: &mut [f64]) { d[0] = y[1]; d[1] = -25.0 * y[0] + (7.0 * t).sin(); } }
+    for m in [Method::RK23, Method::DOPRI5, Method::DOP853, Method::RADAU, Method::BDF] {
+        for &(x0, xe, fs) in &[(0.0f64, 5.0f64, 8.0f64), (0.0, 5.0, 5.0), (5.0, 0.0, 8.0), (5.0, 0.0, -8.0), (0.0, 2.0, 2.5)] {
+            for dense in [false, true] {
+                let mut o = Options::builder().method(m.clone()).rtol(1e-6).atol(1e-9).dense_output(dense).build();
+                o.first_step = Some(fs);
+                let s = match solve_ivp(&Forced, x0, xe, &[1.0, 0.0], o) { Ok(s) => s, Err(_) => continue };
+                if s.status == Status::Success && s.t.last().copied() != Some(xe) {
+                    return Some(format!("{:?}: forced oscillator on [{}, {}] with first_step = {} (dense_output {}): status Success, the last sample is {:?} ({} samples)", m, x0, xe, fs, dense, s.t.last(), s.t.len()));
+                }
+                if dense && s.status == Status::Success { if let Some((a, b)) = s.sol_span() { if (a - x0).abs() > 1e-12 || (b - xe).abs() > 1e-9 { return Some(format!("{:?}: forced oscillator on [{}, {}] with first_step = {}: Success, sol_span = ({:e}, {:e})", m, x0, xe, fs, a, b)); } } }
+            }
+        }
+    }
+    None
+}
+
+/// C05: requested times in a backward run, the end points x0 and xend included, several per step: exactly those times, in order
+fn teval_backward_endpoints() -> Option<String> {
+    struct Osc; impl IVP for Osc { fn ode(&self, _t: f64, y: &[f64], d: &mut [f64]) { d[0] = y[1]; d[1] = -y[0]; } }
+    for m in [Method::RK4, Method::RK23, Method::DOPRI5, Method::DOP853, Method::RADAU, Method::BDF] {
+        for &(x0, xe) in &[(2.0f64, 0.0f64), (0.0, 2.0), (1.5, -3.0), (-1.0, 4.0)] {
+            let grids: Vec<Vec<f64>> = vec![(0..=8).map(|i| x0 + (xe - x0) * i as f64 / 8.0).collect(), vec![xe], vec![x0], vec![x0, xe], (1..=40).map(|i| x0 + (xe - x0) * i as f64 / 40.0).collect()];
+            for te in grids {
+                for dense in [false, true] {
+                    let s = match solve_ivp(&Osc, x0, xe, &[1.0, 0.0], Options::builder().method(m.clone()).t_eval(te.clone()).dense_output(dense).build()) { Ok(s) => s, Err(e) => return Some(format!("{:?}: t_eval {:?} on [{}, {}]: {:?}", m, te, x0, xe, e)) };
+                    if s.status != Status::Success || s.t != te || s.y.len() != te.len() {
+                        return Some(format!("{:?} on [{}, {}] (dense_output {}): requested {} times ending with {:?}, status {:?}, reported {} times ending with {:?}", m, x0, xe, dense, te.len(), te.last(), s.status, s.t.len(), s.t.last()));
+                    }
+                    for (i, t) in te.iter().enumerate() { let ex = (t - x0).cos(); if (s.y[i][0] - ex).abs() > 1e-2 { return Some(format!("{:?} on [{}, {}]: value reported at t = {} is {:e}, the solution is {:e}", m, x0, xe, t, s.y[i][0], ex)); } }
+                }
+            }
+        }
+    }
+    None
+}
+
+/// C09 / C10: events together with requested output times that start late (or an empty list): every sign change is still reported once,
+/// a terminal event still stops the run
+fn events_with_late_teval() -> Option<String> {
+    struct Osc { term: bool }
+    impl IVP for Osc {
+        fn ode(&self, _t: f64, y: &[f64], d: &mut [f64]) { d[0] = y[1]; d[1] = -y[0]; }
+        fn n_events(&self) -> usize { 1 }
+        fn events(&self, _t: f64, y: &[f64], out: &mut [f64]) { out[0] = y[0]; }   // roots of cos(t - x0)
+        fn event_config(&self, _i: usize) -> EventConfig { let mut c = EventConfig::new(); if self.term { c.terminal(); } c }
+    }
+    for m in [Method::RK4, Method::RK23, Method::DOPRI5, Method::DOP853, Method::RADAU, Method::BDF] {
+        for &(x0, xe) in &[(0.0f64, 10.0f64), (10.0, 0.0)] {
+            let plain = match solve_ivp(&Osc { term: false }, x0, xe, &[1.0, 0.0], Options::builder().method(m.clone()).rtol(1e-6).build()) { Ok(s) => s, Err(e) => return Some(format!("{:?}: {:?}", m, e)) };
+            let late: Vec<f64> = (0..=4).map(|i| x0 + (xe - x0) * (0.6 + 0.1 * i as f64)).collect();
+            for te in [late.clone(), vec![], vec![xe]] {
+                let s = match solve_ivp(&Osc { term: false }, x0, xe, &[1.0, 0.0], Options::builder().method(m.clone()).rtol(1e-6).t_eval(te.clone()).build()) { Ok(s) => s, Err(e) => return Some(format!("{:?}: {:?}", m, e)) };
+                if s.t_events[0].len() != plain.t_events[0].len() || plain.t_events[0].len() != 3 {
+                    return Some(format!("{:?}: oscillator on [{}, {}] with t_eval = {:?}: {} events reported ({:?}), the run without t_eval reports {} ({:?})", m, x0, xe, te, s.t_events[0].len(), s.t_events[0], plain.t_events[0].len(), plain.t_events[0]));
+                }
+                let st = match solve_ivp(&Osc { term: true }, x0, xe, &[1.0, 0.0], Options::builder().method(m.clone()).rtol(1e-6).t_eval(te.clone()).build()) { Ok(s) => s, Err(e) => return Some(format!("{:?}: {:?}", m, e)) };
+                if st.status != Status::UserInterrupt || st.t_events[0].len() != 1 || st.t.last().copied() != Some(st.t_events[0][0]) {
+                    return Some(format!("{:?}: oscillator on [{}, {}] with a terminal event and t_eval = {:?}: status {:?}, events {:?}, last sample {:?}", m, x0, xe, te, st.status, st.t_events[0], st.t.last()));
+                }
+            }
+        }
+    }
+    None
+}
+
+/// C06: dense output of a run stopped by a terminal event covers everything up to the event point
+fn dense_up_to_terminal_event() -> Option<String> {
+    struct Ball;
+    impl IVP for Ball {
+        fn ode(&self, _t: f64, y: &[f64], d: &mut [f64]) { d[0] = y[1]; d[1] = -9.81; }
+        fn n_events(&self) -> usize { 1 }
+        fn events(&self, _t: f64, y: &[f64], out: &mut [f64]) { out[0] = y[0]; }
+        fn event_config(&self, _i: usize) -> EventConfig { let mut c = EventConfig::new(); c.terminal(); c }
+    }
+    for m in [Method::RK4, Method::RK23, Method::DOPRI5, Method::DOP853, Method::RADAU, Method::BDF] {
+        for &(h0, fs) in &[(10.0f64, None), (10.0, Some(0.01)), (0.5, Some(2.0))] {
+            let mut o = Options::builder().method(m.clone()).dense_output(true).build();
+            if m == Method::RK4 { o.first_step = Some(fs.unwrap_or(0.05)); } else { o.first_step = fs; }
+            let s = match solve_ivp(&Ball, 0.0, 10.0, &[h0, 0.0], o) { Ok(s) => s, Err(e) => return Some(format!("{:?}: {:?}", m, e)) };
+            if s.status != Status::UserInterrupt { return Some(format!("{:?}: falling ball from {}: status {:?}", m, h0, s.status)); }
+            let last = *s.t.last().unwrap();
+            match s.sol_span() { Some((a, b)) if a == 0.0 && b >= last => {}, sp => return Some(format!("{:?}: falling ball from {} m with a terminal ground event: the last reported time is {:e}, sol_span = {:?}", m, h0, last, sp)) }
+            for (i, t) in s.t.iter().enumerate() {
+                match s.sol(*t) { Ok(v) => { if (v[0] - s.y[i][0]).abs() > 1e-9 * (1.0 + s.y[i][0].abs()) { return Some(format!("{:?}: falling ball: sol({:e}) = {:e}, the stored sample is {:e}", m, t, v[0], s.y[i][0])); } }
+                    Err(e) => return Some(format!("{:?}: falling ball from {} m: sol at the reported time {:e} fails with {:?} (sol_span = {:?})", m, h0, t, e, s.sol_span())) }
+            }
+            if s.sol_many(&s.t).is_err() { return Some(format!("{:?}: falling ball: sol_many over the reported times fails", m)); }
+        }
+    }
+    None
+}
+
+/// C15: a mass matrix stored Banded (with ml != mu) or Full with the same entries gives bit-identical Radau trajectories, and
+/// M y' = A y agrees with y' = M^-1 A y
+fn banded_mass_storage() -> Option<String> {
+    use ivp::matrix::{Matrix, MatrixStorage};
+    struct Sys { upper: bool, explicit: bool }
+    // M = I + 0.5 * (super- or sub-diagonal), A = -diag(1..n) + 0.2 * (other off-diagonal)
+    impl Sys { fn a_times(&self, y: &[f64], out: &mut [f64]) { let n = y.len(); for i in 0..n { out[i] = -((i + 1) as f64) * y[i]; if self.upper { if i >= 1 { out[i] += 0.2 * y[i - 1]; } } else if i + 1 < n { out[i] += 0.2 * y[i + 1]; } } } }
+    impl IVP for Sys {
+        fn ode(&self, _t: f64, y: &[f64], d: &mut [f64]) {
+            let n = y.len(); let mut r = vec![0.0; n]; self.a_times(y, &mut r);
+            if !self.explicit { d.copy_from_slice(&r); return; }
+            // solve M d = r: M bidiagonal with unit diagonal
+            if self.upper { for i in (0..n).rev() { d[i] = r[i] - if i + 1 < n { 0.5 * d[i + 1] } else { 0.0 }; } } else { for i in 0..n { d[i] = r[i] - if i >= 1 { 0.5 * d[i - 1] } else { 0.0 }; } }
+        }
+        fn mass(&self, m: &mut Matrix) {
+            if self.explicit { *m = Matrix::identity(m.nrows()); return; }
+            let n = m.nrows(); for i in 0..n { m[(i, i)] = 1.0; if self.upper { if i + 1 < n { m[(i, i + 1)] = 0.5; } } else if i >= 1 { m[(i, i - 1)] = 0.5; } }
+        }
+    }
+    let y0 = [1.0, 0.5, -0.25, 0.75];
+    for upper in [true, false] {
+        let band = if upper { MatrixStorage::Banded { ml: 0, mu: 1 } } else { MatrixStorage::Banded { ml: 1, mu: 0 } };
+        let run = |st: MatrixStorage, explicit: bool| solve_ivp(&Sys { upper, explicit }, 0.0, 1.5, &y0, Options::builder().method(Method::RADAU).rtol(1e-8).atol(1e-10).mass_storage(st).build());
+        let (f, b) = match (run(MatrixStorage::Full, false), run(band.clone(), false)) { (Ok(f), Ok(b)) => (f, b), _ => return Some(format!("RADAU with a bidiagonal mass matrix (upper = {}) fails in Full or Banded storage", upper)) };
+        if f.t != b.t || f.y != b.y { return Some(format!("RADAU: mass matrix I + 0.5 * ({}-diagonal), n = 4: stored as {:?} the run takes {} steps and ends with {:?}; stored Full: {} steps, {:?}", if upper { "super" } else { "sub" }, band, b.naccpt, b.y.last(), f.naccpt, f.y.last())); }
+        let e = match run(MatrixStorage::Identity, true) { Ok(e) => e, Err(_) => return Some("RADAU: explicit form fails".to_string()) };
+        let (yf, ye) = (f.y.last().unwrap(), e.y.last().unwrap());
+        if (0..4).any(|i| (yf[i] - ye[i]).abs() > 1e-6 * (1.0 + ye[i].abs())) { return Some(format!("RADAU: M y' = A y with M = I + 0.5 * ({}-diagonal) ends with {:?}, y' = M^-1 A y with {:?}", if upper { "super" } else { "sub" }, yf, ye)); }
+    }
+    None
+}
+
 fn main() {
     let which = std::env::args().nth(1).unwrap_or_default();
     let r = match which.as_str() {
@@ -1148,6 +1275,11 @@ fn main() {
         "default_mass" => default_mass(),
         "matrix_dense_model" => matrix_dense_model(),
         "lu_small" => lu_small(),
+        "first_step_rejected_then_success" => first_step_rejected_then_success(),
+        "teval_backward_endpoints" => teval_backward_endpoints(),
+        "events_with_late_teval" => events_with_late_teval(),
+        "dense_up_to_terminal_event" => dense_up_to_terminal_event(),
+        "banded_mass_storage" => banded_mass_storage(),
         "event_reflection" => event_reflection(),
         "sparsity_groups" => sparsity_groups(),
         "initial_modified_solution" => initial_modified_solution(),
